@@ -588,6 +588,8 @@ def history_pairs(rng, n: int) -> list[tuple[dict, dict]]:
             same_doc = rng.chance(1, 2)
             doc_l = doc_e if same_doc else gen(rng)[0]
             opts_e = detgen.extras_option_family(rng, detgen.extension_keys_of(doc_e), keeping_only=True)
+            if rng.chance(1, 3):   # "keep every keyword" alone: the one member of the family that names no key
+                opts_e = {"field_include_all_keys": True}
             used_l = detgen.extension_keys_of(doc_l)
             r = rng.below(4)
             opts_l = {} if r < 2 else dict(rng.choice(OPTION_POOL)) if r == 2 else detgen.extras_option_family(rng, used_l)
